@@ -154,7 +154,9 @@ func (fx *FnCtx) instr(in ssa.Instruction) {
 		fx.assume(eq(st.read(P, l), P.sorts.zero(t)))
 	case *ssa.Store:
 		l := fx.resolveAddr(x.Addr)
+		fx.freshWrite = isFreshBase(x.Addr)
 		st.write(P, l, fx.val(x.Val))
+		fx.freshWrite = false
 	case *ssa.UnOp:
 		fx.unop(x)
 	case *ssa.BinOp:
@@ -246,7 +248,7 @@ func (fx *FnCtx) instr(in ssa.Instruction) {
 		h := st.getHeap(P, elemComp(et), elemSort(P, et))
 		es := P.sorts.sortOf(et)
 		fx.assume(eq(app(fmt.Sprintf("(Array Int %s)", es), "select", h, app("Int", "s_arr", s)),
-			Term{fmt.Sprintf("((as const (Array Int %s)) %s)", es, P.sorts.zero(et).S), fmt.Sprintf("(Array Int %s)", es)}))
+			P.sorts.constArray(fmt.Sprintf("(Array Int %s)", es), P.sorts.zero(et))))
 		fx.assume(app("Bool", "<=", c, Term{maxLenS, "Int"}))
 	case *ssa.MakeMap:
 		ref := fx.define(x, st.next)
@@ -1305,4 +1307,22 @@ func (fx *FnCtx) copyCall(v *ssa.Call, c *ssa.CallCommon) {
 	fx.assume(Term{fmt.Sprintf("(forall ((k Int)) (! (=> (and (<= 0 k) (< k %s)) (= (select %s (+ %s k)) %s)) :pattern ((select %s (+ %s k)))))", n.S, ni.S, doff.S, srcAt("k"), ni.S, doff.S), "Bool"})
 	fx.assume(Term{fmt.Sprintf("(forall ((j Int)) (! (=> (or (< j %s) (>= j (+ %s %s))) (= (select %s j) (select %s j))) :pattern ((select %s j))))", doff.S, doff.S, n.S, ni.S, old.S, ni.S), "Bool"})
 	st.setHeap(comp, app(hs, "store", h, app("Int", "s_arr", dst), ni))
+}
+
+// isFreshBase: the address points into an object allocated by this very function invocation
+// (such writes are invisible to the caller's pre-state and need no modifies entry).
+func isFreshBase(v ssa.Value) bool {
+	switch x := v.(type) {
+	case *ssa.Alloc:
+		return x.Heap
+	case *ssa.MakeSlice, *ssa.MakeMap:
+		return true
+	case *ssa.Slice:
+		return isFreshBase(x.X)
+	case *ssa.FieldAddr:
+		return isFreshBase(x.X)
+	case *ssa.IndexAddr:
+		return isFreshBase(x.X)
+	}
+	return false
 }
